@@ -459,12 +459,14 @@ Definition known_late : list string :=
    "cg_coord_info"; "cg_coord_read"; "cg_coord_general_read"; "cg_coord_id"; "cg_coord_write"; "cg_coord_partial_write";
    "cg_coord_general_write"; "cg_particle_coord_info"; "cg_particle_coord_read"; "cg_particle_coord_general_read";
    "cg_particle_coord_id"; "cg_particle_coord_write"; "cg_particle_coord_partial_write"; "cg_particle_coord_general_write";
-   (* [G] the ZoneGridConnectivity_t container is created and counted (zone->nzconn = 1) before the ranges are checked
-      (cg_1to1_write: confirmed); the same shape, but no failing input found: cg_hole_write, cg_conn_write, cg_conn_write_short *)
+   (* [P] the ZoneGridConnectivity_t container is created and counted (zone->nzconn = 1), then cgi_get_zconn is asked for it:
+      that call cannot fail any more (cg_1to1_write now validates its ranges first; cg_hole_write, cg_conn_write,
+      cg_conn_write_short: no failing input found) *)
    "cg_1to1_write"; "cg_hole_write"; "cg_conn_write"; "cg_conn_write_short";
-   (* [G] an argument is validated after an existing node was deleted / a new node was written (each confirmed);
-      cg_boco_normal_write: "already defined" test of the normal index after the normal list was written (not confirmed) *)
-   "cg_family_write"; "cg_geo_write"; "cg_node_geo_write"; "cg_gridlocation_write"; "cg_bcdataset_write"; "cg_boco_normal_write";
+   (* [G] cg_family_write: the second component of a family tree path is refused after the first was created (confirmed);
+      cg_boco_normal_write: "already defined" test of the normal index after the normal list was written (not confirmed);
+      [P] cg_geo_write / cg_node_geo_write: the file name is now tested first, the old test after the delete is kept and dead *)
+   "cg_family_write"; "cg_geo_write"; "cg_node_geo_write"; "cg_boco_normal_write";
    (* [P] cgi_array_general_write: the size checks against an existing array follow cgi_array_address, which allocates only
       on the path where there is no existing array; [D] its callers *)
    "cg_array_general_write"; "cg_field_write"; "cg_field_partial_write"; "cg_field_general_write"; "cg_particle_field_write";
@@ -475,7 +477,8 @@ Definition known_late : list string :=
    "cg_poly_elements_partial_write"; "cg_poly_elements_general_write"; "cg_parent_data_write"; "cg_parent_data_partial_write"].
 (* a failing argument check that is not turned into a failing return *)
 Definition known_tolerant : list string :=
-  [(* [G] the count functions report 0 with CG_OK when the base / zone index is invalid *)
+  [(* [P] the count functions validate base / zone with cgi_get_zone / cgi_get_particle first; the NULL of the container
+      getter that follows then only means "no such container" and is reported as 0 with CG_OK *)
    "cg_ncoords"; "cg_nholes"; "cg_nconns"; "cg_n1to1"; "cg_n1to1_global"; "cg_nbocos"; "cg_particle_ncoords";
    (* [P] the pointer is used again only after a delegate has validated the same indices *)
    "cg_1to1_read_global"; "cg_particle_sol_size"; "cg_subreg_gcname_write";
@@ -790,9 +793,8 @@ Definition claims_all (t : list vrow) : list (string * list (positive * string))
    was removed or moved behind a branch -- breaks C12_parameters_validated.  Reasons: the cg_<Enum>Name functions return
    "<invalid>" by design; node-context readers validate their index inside the cgi_*_address resolvers through a flag the
    skeleton does not follow; cgio_* names are validated by the back ends; wrappers whose spine ends at a branch; and the
-   genuinely missing checks reported as findings (cg_biter_write bitername, cg_node_fambc_write fambc_name, cg_dataclass_write,
-   cg_*_ptset_write ptset_type, cg_exponents_write / cg_expfull_write / cg_conversion_write DataType, cg_boco_normal_write
-   NormalDataType, the count functions cg_n*, cg_section_general_write elementDataType ...) *)
+   genuinely missing checks reported as findings (cg_*_ptset_write ptset_type and cg_boco_normal_write NormalDataType: tested
+   only behind a branch; cg_section_general_write elementDataType ...) *)
 Definition known_unvalidated : list (string * positive) :=
   [("cg_MassUnitsName"%string, 1%positive); ("cg_LengthUnitsName"%string, 1%positive); ("cg_TimeUnitsName"%string, 1%positive); ("cg_TemperatureUnitsName"%string, 1%positive); 
    ("cg_AngleUnitsName"%string, 1%positive); ("cg_ElectricCurrentUnitsName"%string, 1%positive); ("cg_SubstanceAmountUnitsName"%string, 1%positive); 
@@ -802,26 +804,26 @@ Definition known_unvalidated : list (string * positive) :=
    ("cg_ZoneTypeName"%string, 1%positive); ("cg_RigidGridMotionTypeName"%string, 1%positive); ("cg_ArbitraryGridMotionTypeName"%string, 1%positive); 
    ("cg_SimulationTypeName"%string, 1%positive); ("cg_WallFunctionTypeName"%string, 1%positive); ("cg_AreaTypeName"%string, 1%positive); 
    ("cg_AverageInterfaceTypeName"%string, 1%positive); ("cg_ParticleGoverningEquationsTypeName"%string, 1%positive); ("cg_ParticleModelTypeName"%string, 1%positive); 
-   ("cg_zone_write"%string, 5%positive); ("cg_node_family_read"%string, 1%positive); ("cg_node_family_name_read"%string, 1%positive); ("cg_node_fambc_write"%string, 1%positive); 
-   ("cg_discrete_ptset_write"%string, 5%positive); ("cg_grid_bounding_box_write"%string, 5%positive); ("cg_ncoords"%string, 2%positive); ("cg_ncoords"%string, 3%positive); 
+   ("cg_zone_write"%string, 5%positive); ("cg_node_family_read"%string, 1%positive); ("cg_node_family_name_read"%string, 1%positive); 
+   ("cg_discrete_ptset_write"%string, 5%positive); ("cg_grid_bounding_box_write"%string, 5%positive); 
    ("cg_coord_read"%string, 4%positive); ("cg_coord_general_read"%string, 4%positive); ("cg_section_write"%string, 1%positive); ("cg_poly_section_write"%string, 2%positive); 
    ("cg_poly_section_write"%string, 3%positive); ("cg_poly_section_write"%string, 4%positive); ("cg_poly_section_write"%string, 5%positive); 
    ("cg_section_general_write"%string, 1%positive); ("cg_section_general_write"%string, 2%positive); ("cg_section_general_write"%string, 3%positive); 
    ("cg_section_general_write"%string, 6%positive); ("cg_elements_general_write"%string, 7%positive); ("cg_poly_elements_general_write"%string, 7%positive); 
    ("cg_sol_ptset_write"%string, 5%positive); ("cg_field_read"%string, 5%positive); ("cg_field_general_read"%string, 5%positive); ("cg_subreg_ptset_write"%string, 6%positive); 
-   ("cg_subreg_bcname_write"%string, 6%positive); ("cg_subreg_gcname_write"%string, 6%positive); ("cg_nholes"%string, 2%positive); ("cg_nholes"%string, 3%positive); ("cg_nconns"%string, 2%positive); 
-   ("cg_nconns"%string, 3%positive); ("cg_conn_read"%string, 6%positive); ("cg_conn_write"%string, 1%positive); ("cg_conn_write"%string, 2%positive); ("cg_conn_write"%string, 3%positive); 
+   ("cg_subreg_bcname_write"%string, 6%positive); ("cg_subreg_gcname_write"%string, 6%positive); 
+   ("cg_conn_read"%string, 6%positive); ("cg_conn_write"%string, 1%positive); ("cg_conn_write"%string, 2%positive); ("cg_conn_write"%string, 3%positive); 
    ("cg_conn_write"%string, 11%positive); ("cg_conn_write"%string, 12%positive); ("cg_conn_write"%string, 13%positive); ("cg_conn_write_short"%string, 1%positive); 
-   ("cg_conn_write_short"%string, 2%positive); ("cg_conn_write_short"%string, 3%positive); ("cg_n1to1"%string, 2%positive); ("cg_n1to1"%string, 3%positive); ("cg_nbocos"%string, 2%positive); 
-   ("cg_nbocos"%string, 3%positive); ("cg_boco_write"%string, 5%positive); ("cg_boco_write"%string, 6%positive); ("cg_boco_gridlocation_write"%string, 5%positive); 
-   ("cg_boco_normal_write"%string, 7%positive); ("cg_biter_write"%string, 3%positive); ("cg_particle_bounding_box_write"%string, 5%positive); 
-   ("cg_particle_ncoords"%string, 2%positive); ("cg_particle_ncoords"%string, 3%positive); ("cg_particle_coord_read"%string, 4%positive); 
+   ("cg_conn_write_short"%string, 2%positive); ("cg_conn_write_short"%string, 3%positive); 
+   ("cg_boco_write"%string, 5%positive); ("cg_boco_write"%string, 6%positive); ("cg_boco_gridlocation_write"%string, 5%positive); 
+   ("cg_boco_normal_write"%string, 7%positive); ("cg_particle_bounding_box_write"%string, 5%positive); 
+   ("cg_particle_coord_read"%string, 4%positive); 
    ("cg_particle_coord_general_read"%string, 4%positive); ("cg_particle_field_read"%string, 5%positive); ("cg_particle_field_general_read"%string, 5%positive); 
    ("cg_goto"%string, 2%positive); ("cg_goto_f08"%string, 2%positive); ("cg_gorel"%string, 1%positive); ("cg_gorel_f08"%string, 1%positive); ("cg_gopath"%string, 1%positive); ("cg_famname_write"%string, 1%positive); 
    ("cg_multifam_read"%string, 1%positive); ("cg_array_info"%string, 1%positive); ("cg_array_read"%string, 1%positive); ("cg_array_read_as"%string, 1%positive); 
    ("cg_array_read_as"%string, 2%positive); ("cg_array_general_read"%string, 1%positive); ("cg_array_general_read"%string, 4%positive); ("cg_integral_read"%string, 1%positive); 
-   ("cg_descriptor_read"%string, 1%positive); ("cg_exponents_write"%string, 1%positive); ("cg_expfull_write"%string, 1%positive); ("cg_conversion_write"%string, 1%positive); 
-   ("cg_dataclass_write"%string, 1%positive); ("cg_link_write"%string, 1%positive); ("cg_user_data_read"%string, 1%positive); ("cg_ptset_write"%string, 1%positive); 
+   ("cg_descriptor_read"%string, 1%positive); 
+   ("cg_link_write"%string, 1%positive); ("cg_user_data_read"%string, 1%positive); ("cg_ptset_write"%string, 1%positive); 
    ("cg_bcdataset_read"%string, 1%positive); ("cgio_create_node"%string, 3%positive); ("cgio_new_node"%string, 3%positive); ("cgio_copy_node"%string, 3%positive); 
    ("cgio_create_link"%string, 3%positive); ("cgio_get_node_id"%string, 3%positive); ("cgio_set_name"%string, 4%positive)].
 Definition pmem (p : string * positive) (l : list (string * positive)) : bool :=
